@@ -79,7 +79,14 @@ def _worker(args):
         out["tie_bundles"] += tie.n_bundles
         for k, v in tie.step_kinds.items():
           out["step_kinds"][k] = out["step_kinds"].get(k, 0) + v
+        # the EngineModel is claimed for well-formed documents (WF); an OLD undo list replayed against a document
+        # that has moved on (kind stale_undo) is a raw doc-action application that can break WF (a table removed
+        # under its summary table ...): model/engine disagreements from that bundle on are counted, not reported
+        raw_from = min([r_["log_index"] for r_ in h.bundles if "stale_undo" in r_.get("kinds", ()) and "log_index" in r_] or [10 ** 9])
         for (kind, detail, bi) in tie.finish(ans):
+          if bi >= raw_from:
+            out["stats"]["tie_disagreements_after_stale_undo"] = out["stats"].get("tie_disagreements_after_stale_undo", 0) + 1
+            continue
           out["tie"].append((kind, detail, {"history": h.log[:bi + 1] if bi >= 0 else h.log}, seed))
   return out
 
